@@ -690,6 +690,7 @@ func TestC12Concurrent(t *testing.T) {
 	if run.Shard == 0 {
 		parkedPublisher(run)
 		reattachedID(run)
+		publishContextEndsInHandler(run)
 		scratch := os.Getenv("VERIF_SCRATCH")
 		if scratch == "" {
 			scratch = t.TempDir()
